@@ -53,6 +53,10 @@ func (self ValueString) Fields() (map[string]*Value, *Interrupt) {
 			test := args[0].(ValueString).Inner
 			return NewValueBool(strings.Contains(self.Inner, test)), nil
 		}),
+		"starts_with": NewValueBuiltinFunction(func(executor Executor, cancelCtx *context.Context, span errors.Span, args ...Value) (*Value, *Interrupt) {
+			test := args[0].(ValueString).Inner
+			return NewValueBool(strings.HasPrefix(self.Inner, test)), nil
+		}),
 		"to_lower": NewValueBuiltinFunction(func(executor Executor, cancelCtx *context.Context, span errors.Span, args ...Value) (*Value, *Interrupt) {
 			return NewValueString(strings.ToLower(self.Inner)), nil
 		}),
@@ -83,6 +87,16 @@ func (self ValueString) Fields() (map[string]*Value, *Interrupt) {
 		"compare_lev": NewValueBuiltinFunction(func(executor Executor, cancelCtx *context.Context, span errors.Span, args ...Value) (*Value, *Interrupt) {
 			distance := levenshtein.ComputeDistance(self.Inner, args[0].(ValueString).Inner)
 			return NewValueInt(int64(distance)), nil
+		}),
+		"substring": NewValueBuiltinFunction(func(executor Executor, cancelCtx *context.Context, span errors.Span, args ...Value) (*Value, *Interrupt) {
+			upper := args[0].(ValueInt).Inner
+
+			if upper < 0 || upper >= int64(len(self.Inner)) {
+				return nil, NewThrowInterrupt(span, "index out of range")
+			}
+
+			sub := self.Inner[0:upper]
+			return NewValueString(sub), nil
 		}),
 		"parse_json": NewValueBuiltinFunction(func(executor Executor, cancelCtx *context.Context, span errors.Span, args ...Value) (*Value, *Interrupt) {
 			var raw interface{}
